@@ -154,6 +154,21 @@ Definition step_inputs (st : rp_step) (inv : invocation) (k : key) (items : IV) 
 Definition inputs_of (inv : invocation) (k : key) (items : IV) : inputs :=
   fold_left (fun acc st => step_inputs st inv k items acc) run_pipeline_steps [].
 
+(* the module-level helpers: batch.recommend(pipeline, users, n) is a runner with the one request runner.recommend(n=n) (n handed on
+   as given: no value of n stands for "not given"), batch.score / predict one with runner.score() / runner.predict() *)
+Definition helper_inv (h : helper_setup) (n : IV) : invocation :=
+  match h with
+  | HSRecommendN => mkInv false [("n"%string, n)] [("recommender"%string, "recommendations"%string)]
+  | HSScore => mkInv true [] [("scorer"%string, "scores"%string)]
+  | HSPredict => mkInv true [] [("rating-predictor"%string, "predictions"%string)]
+  end.
+
+(* the keyword arguments the single-query operations give the pipeline: lenskit.recommend(pipe, q, n) runs the node with query=q, n=n;
+   lenskit.score / predict(pipe, q, items) with query=q, items=items *)
+Definition single_inputs (h : helper_setup) (q : option IV) (n items : IV) : inputs :=
+  match q with Some u => [("query"%string, u)] | None => [] end ++
+  match h with HSRecommendN => [("n"%string, n)] | _ => [("items"%string, items)] end.
+
 (* result[oname] = outs[cname] for the invocation's components; a missing node is a KeyError (error 1) *)
 Fixpoint copy_outputs (comps : list (string * string)) (o : outs) (result : outs) : res outs :=
   match comps with
